@@ -22,7 +22,10 @@ them for every state, capacity, sync/async handle, single/batch/in-place form.
   (spsc, mpmc bounded, all rendezvous wrappers): the converted handle sends, and its drop decrements
   the sender count a second time (wraps to 2^64 − 1: receivers never see Disconnected again);
 * `C04_fails_F17` — mpmc bounded: a parked receiver woken by the last sender's close returns
-  Disconnected although a value is buffered (concurrent-only branch of the model).
+  Disconnected although a value is buffered (concurrent-only branch of the model);
+* `C04_disconnected_needs_count_zero`, `C04_spsc_parked_disconnected_needs_count_zero`,
+  `C04_N6_fixed_spsc_close_window` — no receive form observes `producer_dropped`: the two-step spsc sender close
+  (finding N6, repaired by 23f212c in /repo) cannot make Disconnected non-final.
 History level: the checker accepts exactly the histories explained by this model, including the
 explicit defect branches; a raw-history formulation of the protocol is not exported (see report).
 -/
@@ -33,7 +36,7 @@ open Fv.Chan List
 theorem C04_disconnected_only_after_drain {fl : Flavour} (hrv : fl.fam ≠ .rv) (hos : fl.fam ≠ .os) (s : St)
     (f : Form) (h : HName) (n : Nat) (hd : Handle) (hf : findH s.hs h = some hd)
     (ht : (stepOp fl s (.rcv f h n)).2.tag = .disconnected) :
-    hd.closed = true ∨ (s.buf = [] ∧ (s.sc = 0 ∨ s.pd = true)) :=
+    hd.closed = true ∨ (s.buf = [] ∧ s.sc = 0) :=
   stepOp_recv_disconnected hrv hos s f h n hd hf ht
 
 example : (stepOp ⟨.mu, .mpsc, 0, false⟩
@@ -173,23 +176,71 @@ theorem C04_fails_F17 :
 
 def sbA : Flavour := ⟨.sb, .spsc, 2, true⟩
 
-/-- N6 (spsc, concurrent specification only): `close_internal` of the sender stores `producer_dropped` and
-decrements `sender_count` in two steps (bounded_async.rs:37-40, bounded_sync.rs:51-54).  The state between
-the two is the first step of `drop s0`. -/
+/-- The spsc close window (finding N6, repaired in /repo by 23f212c): `close_internal` of the sender stores
+`producer_dropped` and decrements `sender_count` in two steps (bounded_async.rs:37-40, bounded_sync.rs:51-54); the
+concurrent specification keeps the two steps (`startCloseSb` / `startDropSb`, then `stgStep` 10 / 11).  The state
+between the two is the first step of `drop s0`. -/
 def closeWindow : St := (start sbA linCfg (init sbA) 1 (.drop ⟨.tx, 0⟩)).1
 
-/-- N6: in that window the async batch receive (it tests the flag, bounded_async.rs:728) answers
-Disconnected while `try_recv` (it tests the count) still answers Empty — a receiver that observed
-Disconnected is told Empty afterwards (witness: findings/C04_N6_spsc_async_close_window.case; the harness
-signature is `spsc_async:<form>:not-disconnected-after-disconnected`).  Once the second step has run
-both answer Disconnected (`C04_disconnected_final_partial` covers the sequential model, where the two
-steps are one). -/
-theorem C04_fails_N6_spsc_close_window :
+/-- **Disconnected needs the sender COUNT to be zero** — every receive form, every buffered family, every
+configuration (sequential model and concurrent specification), every state: a receive on an open handle answers
+Disconnected only when the buffer is empty and `sender_count = 0`.  No receive form observes `producer_dropped`:
+in particular the first half of a two-step spsc close cannot produce a Disconnected that a later receive
+contradicts.  (Until 23f212c the spsc async batch receives tested the flag: `C04_fails_N6_spsc_close_window`.) -/
+theorem C04_disconnected_needs_count_zero {fl : Flavour} (hrv : fl.fam ≠ .rv) (hos : fl.fam ≠ .os) (cfg : Cfg)
+    (s : St) (t : Nat) (f : Form) (h : HName) (n : Nat) (hd : Handle) (hf : findH s.hs h = some hd)
+    (hopen : hd.closed = false) {s' : St} {o : Out} (hs : start fl cfg s t (.rcv f h n) = (s', .fin o))
+    (ht : o.tag = .disconnected) : s.buf = [] ∧ s.sc = 0 :=
+  startRecv_disconnected_any hrv hos cfg s t f h n hd hf hopen hs ht
+
+/-- … and the same for a receive that was parked and is re-run (`.brecv`), spsc: all behaviours of the concurrent
+specification (`micro`, spurious branches included). -/
+theorem C04_spsc_parked_disconnected_needs_count_zero {fl : Flavour} (hsb : fl.fam = .sb) (cfg : Cfg) (s : St)
+    (t : Nat) (f : Form) (h : HName) (n : Nat) (hn : recvWant f n [] > 0) {s' : St} {o : Out}
+    (hs : (s', P.fin o) ∈ micro fl cfg s (.brecv t f h n [])) (ht : o.tag = .disconnected) :
+    s.buf = [] ∧ s.sc = 0 := by
+  unfold micro at hs
+  rcases List.mem_append.mp hs with hs | hs
+  · simp only [microDet] at hs
+    split at hs
+    · simp at hs
+    · rename_i hd hf
+      split at hs
+      · rename_i r hr
+        simp only [Option.toList, List.mem_singleton] at hs
+        obtain ⟨r1, r2⟩ := r
+        cases hs
+        exact recvStep_disconnected_any hn hr ht
+      · split at hs
+        · rename_i hmb; rw [hsb] at hmb; simp at hmb
+        · simp at hs
+  · split at hs
+    · simp only [microSpur, hidesBehindInflight, hsb] at hs
+      simp at hs
+      split at hs <;> simp at hs
+    · simp at hs
+
+/-- **N6 repaired — Disconnected is final for spsc across the close window.**  In the window (`producer_dropped`
+set, `sender_count` still 1) the async batch receive does not answer Disconnected any more: it waits (`.brecv`,
+exactly like `recv`), `try_recv` / `try_recv_batch` answer Empty; once the second step has run (`sender_count = 0`)
+the parked batch receive and every later receive answer Disconnected, and the count stays 0
+(`C04_disconnected_final_partial`).  Regression schedule: corpus/chan/C04_N6_fixed_spsc_async_close_window.case. -/
+theorem C04_N6_fixed_spsc_close_window :
     closeWindow.pd = true ∧ closeWindow.sc = 1 ∧
-    (start sbA linCfg closeWindow 2 (.rcv .recvBatch ⟨.rx, 0⟩ 1)).2 = P.fin { tag := .disconnected } ∧
+    (start sbA linCfg closeWindow 2 (.rcv .recvBatch ⟨.rx, 0⟩ 1)).2 = P.brecv 2 .recvBatch ⟨.rx, 0⟩ 1 [] ∧
+    (start sbA linCfg closeWindow 2 (.rcv .recvBatchMut ⟨.rx, 0⟩ 1)).2 = P.brecv 2 .recvBatchMut ⟨.rx, 0⟩ 1 [] ∧
     (start sbA linCfg closeWindow 2 (.rcv .tryRecv ⟨.rx, 0⟩ 0)).2 = P.fin { tag := .empty } ∧
+    (start sbA linCfg closeWindow 2 (.rcv .tryRecvBatch ⟨.rx, 0⟩ 1)).2 = P.fin { tag := .empty } ∧
+    micro sbA linCfg closeWindow (.brecv 2 .recvBatch ⟨.rx, 0⟩ 1 []) = [] ∧
     (microDet sbA linCfg closeWindow (.stg 1 11 ⟨.tx, 0⟩ [] [])).map (fun r => (r.1.sc, r.2)) =
-      some (0, P.fin { tag := .ok }) := by
+      some (0, P.fin { tag := .ok }) ∧
+    ((microDet sbA linCfg closeWindow (.stg 1 11 ⟨.tx, 0⟩ [] [])).map (fun r =>
+        ((micro sbA linCfg r.1 (.brecv 2 .recvBatch ⟨.rx, 0⟩ 1 [])).map (·.2),
+         (start sbA linCfg r.1 2 (.rcv .tryRecv ⟨.rx, 0⟩ 0)).2))) =
+      some ([P.fin { tag := .disconnected }], P.fin { tag := .disconnected }) := by
   decide
+
+example : (start sbA linCfg (runOps sbA (init sbA) [.drop ⟨.tx, 0⟩]) 2 (.rcv .recvBatch ⟨.rx, 0⟩ 1)).2
+    = .fin { tag := .disconnected } := by decide
 
 end Fv.Props.C04
